@@ -401,6 +401,9 @@ func (r *AliasResult) events(fn *ssa.Function) {
 							r.ExtArgs = append(r.ExtArgs, AliasSite{Fn: fn, Ins: ins, What: "aliased memory passed to external callee " + e + " which is not in the read-only table"})
 						}
 					}
+					if cm.IsInvoke() && t[cm.Value] > 0 {
+						r.ExtArgs = append(r.ExtArgs, AliasSite{Fn: fn, Ins: ins, What: "method " + e + " invoked on an aliased object whose implementation lies outside the module and is not in the read-only table"})
+					}
 				}
 			}
 		}
